@@ -96,6 +96,7 @@ type Job struct {
 	Verbose    bool           `json:"-"`
 	TimeoutMs  int            `json:"solver_timeout_ms"`
 	IntFirst   bool           `json:"int_first"`
+	IntAssert  bool           `json:"int_assert"`
 }
 
 type JobResult struct {
@@ -139,7 +140,7 @@ func runJob(prog *ssaexec.Program, job Job) (*JobResult, error) {
 		go func(wid int) {
 			defer wg.Done()
 			w, err := ssaexec.NewWorker(prog, ssaexec.Options{LoopCap: job.LoopCap, StepCap: job.StepCap, NoFast: job.NoFast,
-				CrossCheck: job.CrossCheck, SolverKind: job.Solver, SolverTimeoutMs: job.TimeoutMs, IntFirst: job.IntFirst})
+				CrossCheck: job.CrossCheck, SolverKind: job.Solver, SolverTimeoutMs: job.TimeoutMs, IntFirst: job.IntFirst, IntAssert: job.IntAssert})
 			if err != nil {
 				mu.Lock()
 				if firstErr == nil {
@@ -215,6 +216,7 @@ func runJob(prog *ssaexec.Program, job Job) (*JobResult, error) {
 			res.Stats.Unknowns += s.Unknowns
 			res.Stats.CrossChecked += s.CrossChecked
 			res.Stats.CrossMismatch += s.CrossMismatch
+			res.Stats.IntervalDecided += s.IntervalDecided
 			res.Stats.IntQueries += s.IntQueries
 			res.Stats.IntDecided += s.IntDecided
 			res.Stats.IntTimeNs += s.IntTimeNs
@@ -246,6 +248,7 @@ func runJob(prog *ssaexec.Program, job Job) (*JobResult, error) {
 func printJobResult(r *JobResult) {
 	fmt.Printf("harness %s.%s params=%v solver=%s\n", r.Job.Pkg, r.Job.Func, r.Job.Params, r.Job.Solver)
 	fmt.Printf("  paths=%d status=%v\n", r.Paths, r.ByStatus)
+	fmt.Printf("  interval-decided=%d\n", r.Stats.IntervalDecided)
 	fmt.Printf("  decisions=%d fast=%d solverchecks=%d unknowns=%d instrs=%d solver_time=%v queries=%d wall=%v\n",
 		r.Stats.Decisions, r.Stats.FastDecided, r.Stats.SolverChecks, r.Stats.Unknowns, r.Stats.Instrs, r.SolverTime, r.SolverQueries, r.Wall)
 	if r.Stats.IntQueries > 0 {
